@@ -17,7 +17,10 @@ def gen(rng, tier, info):
     frac = 4 if tier == "quick" else 1
     for mod in (c01, c02, c03, c04):
         cs = mod.gen(rng.fork(mod.__name__), tier, info)
-        cases += cs[::frac]
+        for c in cs[::frac]:
+            # only the Display programs at the Interface boundary (the other streams wrap their cases for their own checks)
+            if isinstance(c.descr, dict) and c.line.startswith("prog") and c.descr.get("iface") not in (3, 4, 5):
+                cases.append(vlib.pcase(c.descr))
     return cases
 
 
